@@ -917,6 +917,8 @@ def run_topic(prop, tier, seed):
     for k in seen_known.values():
         print(f"KNOWN-FINDING: property={prop} {k['what']}")
     cov = dict(states=len(strings), transitions=res["pairs"] + res["cover_pairs"],
+               evaluations=res["pairs"] + res["cover_pairs"] + res["strings"],
+               distinct_nontrivial=res["pairs"],      # distinct (valid filter, valid topic name) pairs of the table
                traces_validated_against_impl=verdict["runs"],
                samples=[dict(filter=f, matches=match[f][:6]) for f in list(match)[:: max(1, len(match) // 5)]][:5],
                strings=res["strings"], filter_topic_pairs=res["pairs"], cover_pairs=res["cover_pairs"],
